@@ -49,7 +49,8 @@ TYPE_NO = {'n': 0, 'b': 1, 'd': 2, 'i': 3, 'u': 4, 'l': 5, 'q': 6, 'M': 7, 'L': 
 KIND_TAG = {7: 'M', 8: 'L', 9: 'A', 10: 's'}
 WS = b" \t\n\v\f\r"
 RE_INT = re.compile(rb"[ \t\n\v\f\r]*([+-]?)([0-9]*)")
-RE_FLT = re.compile(rb"[ \t\n\v\f\r]*([+-]?)(?:(inf)(?:inity)?|(nan)(?:\([0-9a-z_]*\))?|((?:[0-9]+\.?[0-9]*|\.[0-9]+)(?:e[+-]?[0-9]+)?))", re.I)
+RE_FLT = re.compile(rb"[ \t\n\v\f\r]*([+-]?)(?:(inf)(?:inity)?|(nan)(?:\([0-9a-z_]*\))?|"
+                    rb"(0x(?:[0-9a-f]+\.?[0-9a-f]*|\.[0-9a-f]+)(?:p[+-]?[0-9]+)?|(?:[0-9]+\.?[0-9]*|\.[0-9]+)(?:e[+-]?[0-9]+)?))", re.I)
 
 
 def dbl(bits):
@@ -99,7 +100,10 @@ def c_atof(s):
     if m.group(3):
         return math.nan
     try:
-        return sign * float(m.group(4))
+        t = m.group(4)
+        if t[:2].lower() == b"0x":
+            return sign * float.fromhex(t.decode())
+        return sign * float(t)
     except (ValueError, OverflowError):
         return sign * math.inf
 
@@ -541,7 +545,9 @@ STR_VALUES = [b"", b"0", b"1", b"-1", b"0.0", b"00", b".", b"0.", b".0", b"00.00
               b" 42", b"+7", b"-0", b"1e3", b"4294967296", b"4294967295", b"2147483648", b"-2147483649", b"9223372036854775807",
               b"9223372036854775808", b"18446744073709551615", b"18446744073709551616", b"-9223372036854775809",
               b"-18446744073709551615", b"abc", b"12abc", b"1.5", b"-2.5", b"inf", b"-inf", b"\t-12", b"  +", b"-", b"1e", b"1.e2",
-              b".5e1", b"0.000", b"a\x00b", b"0\x001", b"\x0042", b"99999999999999999999999", b"1e400", b"1e-400", b"\xff\x80", b"k"]
+              b".5e1", b"0.000", b"a\x00b", b"0\x001", b"\x0042", b"99999999999999999999999", b"1e400", b"1e-400", b"\xff\x80", b"k",
+              b"0x10", b"0X1.8p1", b"-0x.8", b"0x", b"0xg", b"0x.p1", b"0x1p-1074", b"0x1p-1075", b"0x1.fffffffffffff8p1023",
+              b"0x1.00000000000008p0", b"0x1.00000000000018p0", b" +0xAp+2", b"0x1p", b"0x1p+", b"0x0.0p9"]
 INT_EDGES = {'i': [0, 1, -1, 2**31 - 1, -2**31, 255, -128], 'u': [0, 1, 2**32 - 1, 2**31, 255],
              'l': [0, 1, -1, 2**63 - 1, -2**63, 2**31, -2**31 - 1, 2**32, 2**53 + 1, -(2**53 + 1)],
              'q': [0, 1, 2**64 - 1, 2**63, 2**32, 2**53 + 1, 2**64 - 1025]}
@@ -565,7 +571,7 @@ def rand_lit(rng):
         return f"{t}{rng.randrange(-100, 100) if t in 'il' and rng.random() < 0.5 else rng.randrange(lo, hi + 1)}"
     if rng.random() < 0.75:
         return "s" + hexs(rng.choice(STR_VALUES))
-    return "s" + hexs(bytes(rng.choice(b"0123456789.-+ efalsE\x01\xfe") for _ in range(rng.randrange(0, 7))))
+    return "s" + hexs(bytes(rng.choice(b"0123456789.-+ efalsExp\x01\xfe") for _ in range(rng.randrange(0, 7))))
 
 
 def rand_path(rng, val, maxdepth=3):
@@ -696,7 +702,7 @@ def histories_for(ctx):
 
 ASSUMPTIONS = [
     "doubles are opaque bit patterns in the theorems; NaN is excluded where the property excludes it (eq_copy)",
-    "atoi/strtoul/atoll/strtoull/atof/printf behave as glibc on LP64 in the C locale; a double->integer cast out of range is undefined (printed `?`, not compared)",
+    "atoi/strtoul/atoll/strtoull/atof (incl. hexadecimal floats)/printf behave as glibc on LP64 in the C locale; a double->integer cast out of range is undefined (printed `?`, not compared)",
     "precondition of a mutation through a mutable accessor of variable v: the source of the element is not v itself (finding self-append); typed container assignment receives a container that is not part of the destination",
     "allocation never fails; single thread",
 ]
